@@ -204,6 +204,53 @@ def run_hygiene(cx, out, hist):
     return evals
 
 
+def cstr_const_program():
+    """CStr conversions evaluated by rustc's const evaluator (which checks every memory access): contents of every
+    length 0..=17 (both parities; the nul is the last byte of its allocation) and CStrs cut out of a longer buffer."""
+    body = [PRELUDE, "use core::ffi::CStr;\nuse konst::ffi::cstr;\n"]
+    calls = []
+    n = 0
+    contents = ["abcdefghijklmnopq"[:k] for k in range(0, 18)] + ["\\xc3\\xb1", "a\\xc3\\xb1", "\\xff", "a\\xff", "\\xf0\\x9f\\x99\\x82"]
+    for c in contents:
+        for form, mk in (("from_bytes_with_nul", 'match cstr::from_bytes_with_nul(b"%s\\0") { Ok(x) => x, Err(_) => panic!() }' % c),
+                         ("from_bytes_until_nul", 'match cstr::from_bytes_until_nul(b"%s\\0") { Ok(x) => x, Err(_) => panic!() }' % c),
+                         ("from_bytes_until_nul(longer buffer)", 'match cstr::from_bytes_until_nul(b"%s\\0xy\\0") { Ok(x) => x, Err(_) => panic!() }' % c),
+                         ("std CStr", 'match CStr::from_bytes_with_nul(b"%s\\0") { Ok(x) => x, Err(_) => panic!() }' % c)):
+            body.append("const CS_%d: &CStr = %s;\n" % (n, mk))
+            body.append("const CB_%d: &[u8] = cstr::to_bytes(CS_%d);\nconst CN_%d: &[u8] = cstr::to_bytes_with_nul(CS_%d);\n" % (n, n, n, n))
+            body.append("const CT_%d: Option<&str> = match cstr::to_str(CS_%d) { Ok(s) => Some(s), Err(_) => None };\n" % (n, n))
+            d = "%s content=b\\\"%s\\\"" % (form, c.replace("\\", "\\\\"))
+            calls.append('    chk_arr(%d, "cstr::to_bytes(const) %s", CB_%d, CS_%d.to_bytes().to_vec());\n' % (n, d, n, n))
+            calls.append('    chk_arr(%d, "cstr::to_bytes_with_nul(const) %s", CN_%d, CS_%d.to_bytes_with_nul().to_vec());\n' % (n, d, n, n))
+            calls.append('    chk_arr(%d, "cstr::to_str(const) %s", &[CT_%d], vec![CS_%d.to_str().ok()]);\n' % (n, d, n, n))
+            calls.append('    chk_arr(%d, "cstr constructor(const) %s", CS_%d.to_bytes(), b"%s".to_vec());\n' % (n, d, n, c))
+            n += 1
+    return "".join(body) + "fn main() {\n" + "".join(calls) + "    println!(\"N\\t{}\", unsafe { EVALS });\n}\n", n
+
+
+def run_cstr(cx, out, hist):
+    text, n = cstr_const_program()
+    src = cx.write("c20_cstr.rs", text)
+    (rc, se, outp), = cx.compile_many([src])
+    if rc is None:
+        raise kv.Inconclusive("watchdog: rustc did not finish on %s" % src)
+    if rc != 0:
+        out.fail("const-eval-error:cstr-conversions", "cstr::to_bytes/to_bytes_with_nul/to_str", "CStr constants of content length 0..=17 and non-UTF-8 contents (%s)" % src, first_error(se, 3)[:300], "evaluate like CStr::to_bytes / to_bytes_with_nul / to_str", "rustc-const-eval", cmd="rustc " + src, source=src)
+        return 0
+    (rc, so, se), = cx.run_many([outp])
+    if rc != 0:
+        raise kv.Inconclusive("generated program %s exited with %s: %s" % (outp, rc, (se or "")[-300:]))
+    evals = 0
+    for line in so.splitlines():
+        f = line.split("\t")
+        if f[0] == "FAIL":
+            out.fail("differs:" + f[2].split("(const)")[0] + "(const)", f[2], f[2], f[3][:200], f[4][:200], "generated-program", cmd=outp, source=src)
+        elif f[0] == "N":
+            evals += int(f[1])
+    hist["cstr-constants"] = n
+    return evals
+
+
 def run(out, tier, seed):
     thorough = tier == "thorough"
     cx = Ctx("c20")
@@ -250,11 +297,12 @@ def run(out, tier, seed):
             elif f[0] == "N":
                 evals += int(f[1])
     evals += run_hygiene(cx, out, hist)
+    evals += run_cstr(cx, out, hist)
     for kind, _, _, _ in cases:
         hist[kind] = hist.get(kind, 0) + 1
     nontrivial = sum(1 for c in cases if ("pieces=" in c[3] and c[3].count("'") >= 4) or "outer=" in c[3] or "chars=" in c[3])
     samples = ["const K: &str = %s;  vs  %s" % (c[1][:120], c[2][:100]) for c in cases[45:48]] + ["const K: &[u8] = %s" % cases[-30][1][:120]]
     out.add_counts("generated-programs", evals, "c20-consts", nontrivial, samples,
                    rule="one evaluation = one generated `const` item (str_concat!/str_join!/string::from_iter!/slice_concat!) evaluated by rustc and compared at run time with <[&str]>::concat / join / collect::<String> / <[&[T]]>::concat on the same literals (+ from_utf8 of the result); distinct_nontrivial = number of distinct argument lists with >= 2 pieces, char lists and slice_concat! lists",
-                   exhaustive="piece lists of 0..=4 pieces over {\"\",a,ñ,個🙂,ab} (all 781 at the thorough tier, all lists of <= 2 pieces + a seeded 10%% otherwise) x {concat, join with 4 str and 3 char separators, from_iter! plain/rev/filter/flat_map}; char lists of 0..=3 over {a,ñ,個,🙂,NUL}; char ranges incl. the surrogate gap; slice_concat! of u8/u32/&str over 0..=3 inner slices incl. empty outer and inner; named-const and const-fn argument forms; %d caller-side constant names (STR, LEN, CONC, ...) x 7 macro forms (item-name hygiene)" % len(HYGIENE_NAMES))
+                   exhaustive="piece lists of 0..=4 pieces over {\"\",a,ñ,個🙂,ab} (all 781 at the thorough tier, all lists of <= 2 pieces + a seeded 10%% otherwise) x {concat, join with 4 str and 3 char separators, from_iter! plain/rev/filter/flat_map}; char lists of 0..=3 over {a,ñ,個,🙂,NUL}; char ranges incl. the surrogate gap; slice_concat! of u8/u32/&str over 0..=3 inner slices incl. empty outer and inner; named-const and const-fn argument forms; %d caller-side constant names (STR, LEN, CONC, ...) x 7 macro forms (item-name hygiene); cstr::to_bytes / to_bytes_with_nul / to_str as `const` items over CStrs of every content length 0..=17 + non-UTF-8 contents x 4 constructors (nul at the end of its allocation / inside a longer buffer)" % len(HYGIENE_NAMES))
     out.hist.update({"c20/" + k: v for k, v in hist.items()})
